@@ -128,6 +128,12 @@ func reachesAny(fn *ssa.Function, writers []string, seen map[*ssa.Function]bool,
 	}
 	for _, b := range fn.Blocks {
 		for _, in := range b.Instrs {
+			if _, isGo := in.(*ssa.Go); isGo {
+				// `go f(...)`: f runs on another goroutine, not during the call;
+				// what it writes concurrently is outside the sequential reading
+				// every contract is proved in (stated in DESIGN §10.1)
+				continue
+			}
 			if ci, ok := in.(ssa.CallInstruction); ok {
 				// (callees in other packages are followed too when their body is
 				// loaded: a field of a type from another root package is written
